@@ -23,7 +23,7 @@ type Job struct {
 	Bufio         int       `json:"bufio,omitempty"` // 1..3: render into the runner's long-lived bufio.Writer number Bufio
 	GC            bool      `json:"gc,omitempty"`    // empty the sync.Pools first
 	ToGoHTML      bool      `json:"to_go_html,omitempty"`
-	B64           bool      `json:"b64,omitempty"` // Args.S1, S2, XS are base64 (byte-exact transport)
+	B64           bool      `json:"b64,omitempty"`     // Args.S1, S2, XS are base64 (byte-exact transport)
 	Overlap       bool      `json:"overlap,omitempty"` // two renders of the program overlap on one processor (see the runner)
 }
 
